@@ -7,6 +7,7 @@ import corpus_files
 import lasgen
 import readmodel as rm
 import writemodel as wm
+from props import c11
 
 PROP = "C12"
 MODEL_TARGETS = ["Corr/WriteShow.vo", "Proofs/FileRoundTripCheck.vo"]
@@ -71,6 +72,7 @@ NONBLANK_TAG = "NONBLANK-SPACER:"
 BLANK_SPACER_POOL = [" ", "  ", "\t"]
 NONBLANK_SPACER_POOL = [",", ";", ""]
 MIN_CORPUS = 50         # example files expected to pass corpus_files.corpus() (71 on the unchanged tree)
+MIN_NULL_TWICE_PAIRS = 10   # pairs 1.2 layout / 2.0 layout on a base with a repeated NULL line (14 in the quick tier)
 
 
 def is_blank_spacer(s):
@@ -166,6 +168,21 @@ def configs(rng, text="", rkw=None, kind=""):
             c.pop("column_fmt", None)
             c["len_numeric_field"] = None
             c["data_width"] = w
+            if not is_blank_spacer(c["spacer"]):
+                c["spacer"] = " "
+    if kind == "dup":
+        # a base that repeats a mnemonic inside a section (c11.dup_base: NULL two or three times in ~Well, COMP/UWI/WELL twice, a
+        # ~Parameter mnemonic repeated): always the 1.2 layout (version=1.2, or version=None on a base that says VERS 1.2) against
+        # the 2.0 layout; the value:descr / descr:value layout of a 1.2 ~Well line goes by the mnemonic as written (seeded C12_4)
+        v12 = None if (c11.says_12(text) and rng.random() < 0.3) else 1.2
+        c1["version"], c2["version"] = rng.choice([(v12, 2), (2, v12)])
+        if rng.random() < 0.5:
+            # the same format string per column: the pair is inside same_formats, the whole-file theorems speak about it
+            c2["fmt"] = c1["fmt"]
+            c2.pop("column_fmt", None)
+            if c1.get("column_fmt"):
+                c2["column_fmt"] = dict(c1["column_fmt"])
+        for c in (c1, c2):
             if not is_blank_spacer(c["spacer"]):
                 c["spacer"] = " "
     return c1, c2
@@ -314,19 +331,31 @@ def kind_of(name):
     return name.split(":")[0]
 
 
+def writes_12(cfg, text):
+    return cfg["version"] == 1.2 or (cfg["version"] is None and c11.says_12(text))
+
+
 def run(ctx):
     res = lib.Result()
     rng = ctx.rng
     bases = make_bases(rng, *((80, 20, 12, 30) if ctx.thorough else (25, 6, 6, 10)))
+    # the bases with a repeated mnemonic and the choices made for them draw from a generator of their own: the sample of the
+    # other classes is the same with and without them
+    import random
+    drng = random.Random(ctx.seed + 1204)
+    bases += c11.dup_bases(drng, 27 if ctx.thorough else 9)
     n_corpus = sum(1 for n, _ in bases if n.startswith("corpus:"))
     per = 5 if ctx.thorough else 1
     cases, meta, kinds = [], [], set()
     pairs = []            # (index of the first case of the pair, same format strings per column?, oracle violated?, name, payload)
     hist = {"version_differs": 0, "wrap_differs": 0, "not_accepted": 0, "preserve": 0, "format_strings_differ": 0, "column_fmt": 0,
-            "nonblank_spacer": 0, "reread_options_differ": 0, "wide": 0, "wide_12_vs_20_nowrap": 0, "overflow": 0, "pairs": 0}
+            "nonblank_spacer": 0, "reread_options_differ": 0, "wide": 0, "wide_12_vs_20_nowrap": 0, "overflow": 0, "pairs": 0,
+            "duplicated_mnemonic": 0, "null_twice_12_vs_20": 0, "version_none": 0}
     not_accepted = []
     for name, text in bases:
-        for _ in range(per):
+        dup = kind_of(name) == "dup"
+        rng = drng if dup else ctx.rng
+        for _ in range(per + 1 if dup else per):
             rkw = {"mnemonic_case": rng.choice(["upper", "upper", "preserve", "lower"])}
             c1, c2 = configs(rng, text, rkw, kind_of(name))
             # the re-reads may use other options than the read that built the object (first read preserve, re-read upper, ...)
@@ -365,6 +394,9 @@ def run(ctx):
             hist["wide_12_vs_20_nowrap"] += (kind_of(name) == "wide" and c1["version"] != c2["version"]
                                              and not c1["wrap"] and not c2["wrap"])
             hist["overflow"] += kind_of(name) == "overflow"
+            hist["duplicated_mnemonic"] += dup
+            hist["null_twice_12_vs_20"] += name.startswith("dup:null") and writes_12(c1, text) != writes_12(c2, text)
+            hist["version_none"] += c1["version"] is None or c2["version"] is None
     if ctx.build.model_ok:
         mism, err = lib.run_coq_cases("c12", [], wm.RUN_PIPE, cases, shard=8)
         res.corr_error = err
@@ -391,15 +423,18 @@ def run(ctx):
     else:
         res.corr_error = "model not built"
     # a class of accepted inputs that turns into rejected ones must not shrink the sample silently
-    if not_accepted or n_corpus < MIN_CORPUS:
+    if not_accepted or n_corpus < MIN_CORPUS or hist["null_twice_12_vs_20"] < MIN_NULL_TWICE_PAIRS:
         res.corr_error = ((res.corr_error + "; ") if res.corr_error else "") + \
-            ("%d input(s) built as accepted were not accepted (%s); %d example files passed the corpus filter (expected >= %d)"
-             % (len(not_accepted), "; ".join(not_accepted[:3]), n_corpus, MIN_CORPUS))
+            ("%d input(s) built as accepted were not accepted (%s); %d example files passed the corpus filter (expected >= %d); "
+             "%d pairs 1.2 / 2.0 on a base with a repeated NULL line (expected >= %d)"
+             % (len(not_accepted), "; ".join(not_accepted[:3]), n_corpus, MIN_CORPUS, hist["null_twice_12_vs_20"], MIN_NULL_TWICE_PAIRS))
     res.oracle_violations.sort(key=lambda v: NONBLANK_TAG in v["what"])      # violations outside the known class are reported first
     res.cases = len(cases)
     res.distinct_nontrivial = len(kinds)
     res.rule = ("accepted inputs (corpus, generated, mixed-case ~Well mnemonics, 28/35/42-curve files of both versions, rows with samples "
-                "wider than their field) x pairs of writer configurations of equal precision per column (the same format string, other "
+                "wider than their field, files of both versions that repeat a mnemonic inside a section: NULL two or three times in ~Well "
+                "with equal / different values and spellings, COMP/UWI/WELL twice, a ~Parameter mnemonic repeated, each written in the 1.2 "
+                "layout (version=1.2 or None) against 2.0) x pairs of writer configurations of equal precision per column (the same format string, other "
                 "width/flags, fmt against equal column_fmt entries, column_fmt for j > 0) that differ in version, wrap, field width, "
                 "spacers (blank, tab, and ',' ';' '' on the implementation side), data width, header width, data-section header style; "
                 "both outputs must be readable, of one shape, and equal apart from VERS and WRAP; non-trivial = distinct (base, versions, "
@@ -447,10 +482,12 @@ def finding_of(payload):
 
 def search(ctx, res):
     import random
-    rng = random.Random(ctx.seed + 51)
-    bases = make_bases(rng, 200, 50, 12, 60)
+    ctx_rng = rng = random.Random(ctx.seed + 51)
+    bases = c11.dup_bases(random.Random(ctx.seed + 53), 45) + make_bases(rng, 200, 50, 12, 60)
+    drng = random.Random(ctx.seed + 54)
     for _ in range(4):
         for name, text in bases:
+            rng = drng if kind_of(name) == "dup" else ctx_rng
             rkw = {"mnemonic_case": rng.choice(["upper", "preserve", "lower"])}
             c1, c2 = configs(rng, text, rkw, kind_of(name))
             rkw2 = {"mnemonic_case": rng.choice(["upper", "preserve", "lower"])} if rng.random() < 0.25 else rkw
